@@ -347,7 +347,7 @@ def prep_sequence_pattern(
 
 
 def extract_dunder_match_args_names(info: TypeInfo) -> list[str]:
-    ty = info.names.get("__match_args__")
+    ty = info.get("__match_args__")
     assert ty
     match_args_type = get_proper_type(ty.type)
     assert isinstance(match_args_type, TupleType), match_args_type
